@@ -35,8 +35,15 @@ pub proof fn lemma_limb0_parity(s: Seq<u64>) requires s.len() > 0 ensures limbs_
     assert(((s[0] as nat) + b * limbs_val(t)) % 2 == (s[0] as nat) % 2) by(nonlinear_arith) requires (b * limbs_val(t)) % 2 == 0;
 }
 """)
-    u.add("impl Sgn0Result {")
-    u.add(u.real_fn('signum', 'impl BitXor for Sgn0Result', 'bitxor', "    ensures sgn_neg(ret) == (sgn_neg(self) != sgn_neg(rhs))", vis='pub'))
+    u.add('''pub open spec fn sgn_xor(a: Sgn0Result, b: Sgn0Result) -> Sgn0Result { if a == b { Sgn0Result::NonNegative } else { Sgn0Result::Negative } }
+impl vstd::std_specs::ops::BitXorSpecImpl for Sgn0Result {
+    open spec fn obeys_bitxor_spec() -> bool { true }
+    open spec fn bitxor_req(self, rhs: Sgn0Result) -> bool { true }
+    open spec fn bitxor_spec(self, rhs: Sgn0Result) -> Sgn0Result { sgn_xor(self, rhs) }
+}
+impl core::ops::BitXor for Sgn0Result {
+    type Output = Self;''')
+    u.add(u.real_fn('signum', 'impl BitXor for Sgn0Result', 'bitxor', "    ensures ret == sgn_xor(self, rhs)"))
     u.add("}")
     u.add("impl Fq {")
     u.add(u.real_fn('fq', 'impl Signum0 for Fq', 'sgn0', "    ensures sgn_neg(ret) == sgn0_1(self.v())", vis='pub',
